@@ -217,6 +217,12 @@ StringDictionaryHASHUFFDAC::StringDictionaryHASHUFFDAC(IteratorDictString *it,
   hash->finish(bytesStrings);
 
   delete builder;
+
+  // As load() does: the hash compares against the DAC sequence, and the
+  // coder built for encoding knows nothing about the decoding table
+  hash->setData(dac);
+  delete coder;
+  coder = new StatCoder(table, codewords);
 }
 
 unsigned long StringDictionaryHASHUFFDAC::locate(uchar *str, uint strLen) {
